@@ -101,6 +101,8 @@ func (p *Prog) assemble(q *Query) []*smt.Term {
 			as = append(as, ax)
 		}
 	}
+	// global axioms (embedded-object references, boxing) about the functions that occur
+	as = append(as, p.D.RelevantAxioms(as)...)
 	return as
 }
 
